@@ -23,13 +23,15 @@ const (
 	// world.New costs ~100 ms (pre-allocated LevelDB/overlay buffers), so one world serves many cases:
 	// every case registers its OWN fresh source chain id through side_chain_manager, which gives it a
 	// fresh namespace for everything the routers under test read or write (epoch info, done-tx).
-	casesPerWorld = 400
 )
 
 var (
-	sharedW    *world.World
-	sharedUses int
-	nextChain  uint64
+	casesPerWorld = 400
+	envNetID      uint32 // 0 = test net (default of world.Opts); TestC20Cosmos runs on main net (1)
+	sharedW       *world.World
+	sharedNet     uint32
+	sharedUses    int
+	nextChain     uint64
 )
 
 var routerID = map[string]uint64{
@@ -83,11 +85,12 @@ func reserveWorld(n int) {
 }
 
 func newEnv(router string) *env {
-	if sharedW == nil || sharedUses >= casesPerWorld {
+	if sharedW == nil || sharedUses >= casesPerWorld || sharedNet != envNetID {
 		if sharedW != nil {
 			sharedW.Store.Close() // stop the retired LevelDB's background goroutines
 		}
-		sharedW = world.New(nPolyVal, world.Opts{})
+		sharedW = world.New(nPolyVal, world.Opts{NetworkID: envNetID})
+		sharedNet = envNetID
 		registerChain(sharedW, dstChain, utils.ETH_ROUTER, "dst")
 		sharedUses, nextChain = 0, 1000
 	}
@@ -99,18 +102,29 @@ func newEnv(router string) *env {
 	return &env{router: router, w: w, chain: nextChain}
 }
 
+// envExecHook, when set, replaces the plain execution of the env's transactions (TestC16ACosmos
+// executes every transaction several times on forks of the prior state before applying it).
+var envExecHook func(e *env, contract common.Address, method string, args []byte, signers []common.Address) world.Result
+
+func (e *env) invoke(contract common.Address, method string, args []byte, signers []common.Address) world.Result {
+	if envExecHook != nil {
+		return envExecHook(e, contract, method, args, signers)
+	}
+	return e.w.Invoke(contract, method, args, signers)
+}
+
 // syncGenesis installs the trust root through the header_sync entrance, witnessed by signers.
 func (e *env) syncGenesis(hdr []byte, signers []common.Address) world.Result {
 	sink := common.NewZeroCopySink(nil)
 	(&hscommon.SyncGenesisHeaderParam{ChainID: e.chain, GenesisHeader: hdr}).Serialization(sink)
-	return e.w.Invoke(utils.HeaderSyncContractAddress, hscommon.SYNC_GENESIS_HEADER, sink.Bytes(), signers)
+	return e.invoke(utils.HeaderSyncContractAddress, hscommon.SYNC_GENESIS_HEADER, sink.Bytes(), signers)
 }
 
 func (e *env) syncHeaders(hdrs [][]byte) world.Result {
 	relayer := world.Acct(11)
 	sink := common.NewZeroCopySink(nil)
 	(&hscommon.SyncBlockHeaderParam{ChainID: e.chain, Address: relayer.Address, Headers: hdrs}).Serialization(sink)
-	r := e.w.Invoke(utils.HeaderSyncContractAddress, hscommon.SYNC_BLOCK_HEADER, sink.Bytes(), []common.Address{relayer.Address})
+	r := e.invoke(utils.HeaderSyncContractAddress, hscommon.SYNC_BLOCK_HEADER, sink.Bytes(), []common.Address{relayer.Address})
 	e.w.NextBlock()
 	return r
 }
@@ -120,7 +134,7 @@ func (e *env) importDeposit(height uint32, proof, extra, hdr []byte) world.Resul
 	sink := common.NewZeroCopySink(nil)
 	(&scom.EntranceParam{SourceChainID: e.chain, Height: height, Proof: proof, RelayerAddress: relayer.Address[:], Extra: extra,
 		HeaderOrCrossChainMsg: hdr}).Serialization(sink)
-	r := e.w.Invoke(utils.CrossChainManagerContractAddress, scom.IMPORT_OUTER_TRANSFER_NAME, sink.Bytes(), []common.Address{relayer.Address})
+	r := e.invoke(utils.CrossChainManagerContractAddress, scom.IMPORT_OUTER_TRANSFER_NAME, sink.Bytes(), []common.Address{relayer.Address})
 	e.w.NextBlock()
 	return r
 }
